@@ -28,6 +28,12 @@ func (x *xorWriter) Write(p []byte) (int, error) {
 func (x *xorWriter) Close() error      { return nil }
 func (x *xorWriter) Reset(w io.Writer) { x.w = w }
 
+// freshXor is a CustomCompressor written as a factory: every Compressor() call returns a new instance.
+type freshXor struct{}
+
+func (freshXor) Compressor() mcap.ResettableWriteCloser { return &xorWriter{} }
+func (freshXor) Compression() mcap.CompressionFormat    { return mcap.CompressionFormat(wl.CustomCompression) }
+
 type xorReader struct{ r io.Reader }
 
 func (x *xorReader) Read(p []byte) (int, error) {
@@ -66,6 +72,9 @@ func Options(k wl.Config) *mcap.WriterOptions {
 	switch k.Compression {
 	case "custom":
 		o.Compressor = mcap.NewCustomCompressor(mcap.CompressionFormat(wl.CustomCompression), &xorWriter{})
+		if k.FreshCompressor {
+			o.Compressor = freshXor{}
+		}
 	case "lz4-nochecksum":
 		// what writers in other languages emit: an lz4 frame without the optional content checksum,
 		// so that the MCAP chunk CRC is the only integrity check
